@@ -377,7 +377,7 @@ func (g *gen) stmt(c *ctx) *stmt {
 type printer struct {
 	sb      strings.Builder
 	forced  bool // every block reads the dummy variable of its function
-	liveIfs bool // every if condition is written (cond) and Suneido.vtrue: no branch can be removed at compile time, everything else stays constant
+	liveIfs bool // every if condition is written ((cond) is Suneido.vtrue): no branch can be removed at compile time, everything else stays constant
 	noconst bool // literals are written (N + Suneido.vzero) and function variables are assigned twice: nothing is a compile-time constant
 }
 
@@ -457,7 +457,7 @@ func (p *printer) stmt(s *stmt) {
 		if p.liveIfs {
 			p.sb.WriteString("(")
 			p.expr(s.e)
-			p.sb.WriteString(" and Suneido.vtrue)")
+			p.sb.WriteString(" is Suneido.vtrue)") // not "and": false and x is folded to false
 		} else {
 			p.expr(s.e)
 		}
@@ -658,6 +658,7 @@ type loopCtl struct{ brk bool } // break / continue inside a loop of the same sc
 type machine struct {
 	log   []string
 	steps int
+	depth int // nesting of calls: the interpreter has 256 frames, deeper recursion is a resource limit, not scoping
 }
 
 type tooLong struct{}
@@ -719,7 +720,7 @@ func (m *machine) eval(inv *invocation, e *expr) value {
 		case "-":
 			return m.num(x - y)
 		case "*":
-			return m.num(x * y)
+			return m.mul(x, y)
 		case "<":
 			return x < y
 		case ">":
@@ -745,6 +746,14 @@ func (m *machine) eval(inv *invocation, e *expr) value {
 }
 
 // num refuses programs whose integers leave the range in which arithmetic is exact and displayed plainly.
+// mul multiplies without wrapping around (both operands have passed num, so the float product is accurate enough for the bound)
+func (m *machine) mul(x, y int) int {
+	if f := float64(x) * float64(y); f > 1e12 || f < -1e12 {
+		panic(tooLong{})
+	}
+	return x * y
+}
+
 func (m *machine) num(n int) int {
 	if n > 1e12 || n < -1e12 {
 		panic(tooLong{})
@@ -753,6 +762,11 @@ func (m *machine) num(n int) int {
 }
 
 func (m *machine) call(callee value, args []value) value {
+	m.depth++
+	defer func() { m.depth-- }()
+	if m.depth > 100 {
+		panic(tooLong{})
+	}
 	switch f := callee.(type) {
 	case *closure:
 		inv := &invocation{sc: f.sc, locals: map[*class]value{}, shared: f.shared, active: true, root: f.creator}
@@ -816,7 +830,7 @@ func (m *machine) exec(inv *invocation, s *stmt) value {
 		case "-=":
 			v = m.num(cur - r)
 		default:
-			v = m.num(cur * r)
+			v = m.mul(cur, r)
 		}
 		m.set(inv, s.name, v)
 		return v
@@ -891,7 +905,7 @@ func (m *machine) exec(inv *invocation, s *stmt) value {
 		func() {
 			defer func() {
 				if r := recover(); r != nil {
-					if se, ok := r.(suError); ok {
+					if se, ok := r.(suError); ok && !strings.HasPrefix(se.msg, "model:") { // model: = outside the model, the run is skipped
 						m.set(inv, s.evar, se.msg)
 						m.block(inv, s.els)
 						return
@@ -1151,7 +1165,7 @@ func TestVerifC29(t *testing.T) {
 				if li, cerr3 := real(source3(root, forced, false, true)); cerr3 == "" && li == want {
 					// the recorded defect: a branch removed at compile time took the only use of a name in its scope with it
 					cls = "C29/scoping-changed-by-dead-branch-removal/" + variant
-					detail["note"] = "the program agrees with the model when no if branch can be removed at compile time (conditions written (cond) and Suneido.vtrue); constants are still propagated"
+					detail["note"] = "the program agrees with the model when no if branch can be removed at compile time (conditions written ((cond) is Suneido.vtrue)); constants are still propagated"
 				} else if nc, cerr2 := real(source2(root, forced, true)); cerr2 == "" && nc == want {
 					cls = "C29/scoping-changed-by-constant-propagation/" + variant
 					detail["note"] = "the program agrees with the model when nothing in it is a compile-time constant (literals written (N + Suneido.vzero), function variables assigned twice), but not when only the if branches are kept alive"
